@@ -118,6 +118,24 @@ func TestCheck(t *testing.T) {
 				n := 1 + r.Intn(3)
 				specs := g.History(n)
 				before := w.X.M.StateHash()
+				if n > 1 && r.Intn(3) == 0 {
+					// one request, individually stamped operations: the check is per operation
+					stamps := make([]*spb.Uint128, n)
+					mixed := false
+					for k := range stamps {
+						stamps[k] = id
+						if r.Intn(2) == 0 {
+							stamps[k] = w.StampFor(actor, mon.OpStamp(r.Intn(int(mon.NumStamps))))
+							mixed = mixed || stamps[k] != id
+						}
+					}
+					probs = append(probs, w.SendOpsMixed(actor, specs, stamps)...)
+					if mixed {
+						run.Count("requests_with_individually_stamped_operations", 1)
+					}
+					run.Count("operations", int64(n))
+					break
+				}
 				probs = append(probs, w.SendOps(actor, specs, id)...)
 				run.Count("operations", int64(n))
 				cls := "applied"
@@ -159,5 +177,5 @@ func TestCheck(t *testing.T) {
 			run.Sample(map[string]any{"case": caseID, "transport": map[bool]string{true: "grpc", false: "direct"}[useGRPC], "script": w.Trace})
 		}
 	})
-	run.Finish("seeded sequential interleavings (15-60 steps) of connect+negotiate / announce / operate / disconnect by up to 4 live sessions (direct streams; 1 in 25 scripts over real gRPC); announced ids are ties, +-1 in either half, high-word-only and opposing-halves neighbours of the current maximum; each batch of 1-3 operations is stamped with the session's last id, the server maximum, a stale id, a future id, another session's id, or nothing. After EVERY step the complete hooked state (RIB contents, reference counters, held operations, highest id, primary, session table) is compared with the model, and every other session's stream must be silent. Distinct = by script", 100, false)
+	run.Finish("seeded sequential interleavings (15-60 steps) of connect+negotiate / announce / operate / disconnect by up to 4 live sessions (direct streams; 1 in 25 scripts over real gRPC); announced ids are ties, +-1 in either half, high-word-only and opposing-halves neighbours of the current maximum; each batch of 1-3 operations is stamped with the session's last id, the server maximum, a stale id, a future id, another session's id, or nothing; one multi-operation request in three stamps its operations individually (a correctly stamped operation next to stale / foreign ones in the same request). After EVERY step the complete hooked state (RIB contents, reference counters, held operations, highest id, primary, session table) is compared with the model, and every other session's stream must be silent. Distinct = by script", 100, false)
 }
